@@ -80,6 +80,9 @@ func run(c *props.Ctx) {
 	w.ruleOut(a)
 	w.ruleSem(a)
 	lap("scene")
+	w.ruleInst(a)
+	w.ruleEq(a, stats)
+	lap("eq")
 
 	a.flush()
 	c.R.Extra["functions_analysed"] = len(w.fns)
